@@ -300,6 +300,10 @@ class MdnsWorld:
         # through the browser callback: the name is queued for resolution, the 0.5 s timer fires, the record is loaded
         from zeroconf import ServiceStateChange
         self.records[info.name] = info
+        if self.route == "browser-after-goodbye":
+            # the accessory restarts: Added, then a goodbye within the 0.5 s resolve delay, then it is back
+            self.ctl._handle_service(None, info.type, info.name, ServiceStateChange.Added)
+            self.ctl._handle_service(None, info.type, info.name, ServiceStateChange.Removed)
         n = len(self.loop.timers)
         self.ctl._handle_service(None, info.type, info.name, ServiceStateChange.Updated)
         for t in self.loop.timers[n:]:
@@ -339,7 +343,7 @@ def waiter_unit(M, World, n_waiters, depth):
         spelling, adv_spelling = ex.choice("id_spelling(waiter,advertised)", [("lower", "lower"), ("upper", "lower"), ("lower", "upper")]) if World.name == "mdns" else ("lower", "lower")
         W = World(M, with_pairing)
         if World.name == "mdns":
-            W.route = ex.choice("record_arrives_via", ["direct", "browser"])
+            W.route = ex.choice("record_arrives_via", ["direct", "browser", "browser-after-goodbye"])
         waiters, expect, known = [], [], set()
         try:
             for i in range(depth):
